@@ -240,6 +240,8 @@ def run(ctx, rep):
                 zs = [u for u in s.users.get(al_[0].id, ()) if u.op == 'store' and s.const_of(u.ops[0]) == 0 and u.block in s.loops[lp_] and s.dominates(u, incs_[0])]
                 okf = bool(zs)
                 detf = 'flag `%s` cleared inside the file loop: %s' % (fl, okf)
+    from .C11 import invalid_walk_rule, hash_provenance_share
+    invalid_walk_rule(P, rep, 'R-C20-4w', 'state_status', 'status reports the array as fully synced (no unsynced / unscrubbed stripe behind the used size is counted)')
     from .carried import carried_flags_rule
     carried_flags_rule(P, rep, 'R-C20-4g', only={'state_status', 'state_dup', 'state_list', 'state_pool', 'clean_dir', 'read_dir'}, min_examined=1)
     rep.check(okf, 'R-C20-4f', 'state_status: per-file fragmented flag reset', incs_[0].loc() if incs_ else s.file, detf if okf else detf + ': once one file of a disk is fragmented every later file of that disk is counted as fragmented', function='state_status', construct='fragmented flag reset')
